@@ -13,6 +13,12 @@ pub mod c08;
 #[cfg(kani)]
 pub mod c17;
 #[cfg(kani)]
+pub mod c14;
+#[cfg(kani)]
+pub mod c11;
+#[cfg(kani)]
+pub mod xprobe;
+#[cfg(kani)]
 pub mod c03;
 #[cfg(kani)]
 pub mod c09;
